@@ -28,7 +28,7 @@ ASSUMPTIONS = [
     "a generated logging section keeps a file handler on the runtime log (a bare dictConfig would remove the --log-target handler)",
 ]
 BOUND = 20
-SERVICES = {"FxSvcAsyncio": "asyncio", "FxSvcTrio": "trio", "FxSvcThread": "threading", "FxSvcCtrl": "trio", "FxSvcParked": "asyncio", "FxGc": "threading"}
+SERVICES = {"FxSvcAsyncio": "asyncio", "FxSvcTrio": "trio", "FxSvcThread": "threading", "FxSvcCtrl": "trio", "FxSvcParked": "asyncio", "FxGc": "threading", "FxSvcUnhashable": "threading", "FxSvcEqual": "asyncio"}
 SILENT = {"FxSvcParked"}  # services that do not beat: judged by run-start / cancelled / not ending early
 SHIPPED_MIDDLE = [("Buffer", "cobald.decorator.buffer.Buffer", {"window": 5}), ("Standardiser", "cobald.decorator.standardiser.Standardiser", {"minimum": 0}),
                   ("Logger", "cobald.decorator.logger.Logger", {"name": "verif"}), ("Limiter", "cobald.decorator.limiter.Limiter", {"maximum": 10})]
@@ -60,7 +60,7 @@ def pipeline(draw, prefix):
                 tag, path, kw = draw(st.sampled_from(SHIPPED_MIDDLE))
                 elems.append({"cls": tag, "path": path, "name": None, "form": form, "kw": dict(kw)})
             elif kind == "svc":
-                cls = draw(st.sampled_from(["FxSvcAsyncio", "FxSvcTrio", "FxSvcThread", "FxSvcAsyncio", "FxSvcTrio", "FxSvcThread", "FxSvcParked", "FxGc"]))
+                cls = draw(st.sampled_from(["FxSvcAsyncio", "FxSvcTrio", "FxSvcThread", "FxSvcAsyncio", "FxSvcTrio", "FxSvcThread", "FxSvcParked", "FxGc", "FxSvcUnhashable", "FxSvcEqual", "FxSvcEqual"]))
                 elems.append({"cls": cls, "name": name, "form": form, "kw": {"name": name}})
             else:
                 elems.append({"cls": "FxDeco", "name": name, "form": form, "kw": {"name": name}})
